@@ -67,6 +67,26 @@ def h_choice_weighted(ctx: Ctx, cfg):
         acc += iw[j]
 
 
+FRACTIONS = [0.0, 1.0 / 3.0, 0.29, 1.0 / 7.0, 0.5, 2.0 / 7.0, 1e-6]
+
+
+def h_choice_weighted_fractional(ctx: Ctx, cfg):
+    """fractional (already normalised / user-declared) weights: the scaled integer thresholds are
+    concrete per path, the draw is symbolic; a zero-weight option is never returned, whatever its
+    position, and the returned option is a member"""
+    n = ctx.cint(2, cfg["n"], "len")
+    weights = [ctx.pick(FRACTIONS, "w") for _ in range(n)]
+    if not any(w > 0 for w in weights):
+        ctx.abandon("precondition:all-zero-weights")
+    opts = [Lbl(i) for i in range(n)]
+    r = FreshRandom(ctx) if cfg.get("kind") is None else _wrapper(cfg["kind"], sym_genes(ctx, 1))
+    v = r.choice_weighted(opts, list(weights))
+    ctx.reached()
+    idx = [i for i, o in enumerate(opts) if o is v]
+    ctx.require(len(idx) == 1, "choice_weighted-not-member")
+    ctx.require(weights[idx[0]] > 0, "choice_weighted-zero-weight-returned", lambda: {"weights": weights, "returned": idx[0]})
+
+
 def h_shuffle(ctx: Ctx, cfg):
     n = ctx.cint(0, cfg["n"], "len")
     lst = [Lbl(i) for i in range(n)]
@@ -384,6 +404,8 @@ def obligations(tier: str):
         Ob("selftest_independent_draws", {}, expect="refute", timeout=30),
         Ob("choice", {"n": 5 if T else 4}),
         Ob("choice_weighted", {"n": 4 if T else 3, "wmax": 50 if T else 3}, timeout=300 if T else 90),
+        Ob("choice_weighted_fractional", {"n": 4 if T else 3}, timeout=600 if T else 150),
+        Ob("choice_weighted_fractional", {"n": 3, "kind": "ge"}, name="choice_weighted_fractional_ge", timeout=600 if T else 150),
         Ob("shuffle", {"n": 5 if T else 4}, timeout=300 if T else 90),
         Ob("pop_random", {"n": 5 if T else 4}),
         Ob("random_bool", {}),
